@@ -150,6 +150,11 @@ type sender struct {
 	resendTimer timer
 	resendWaker sleep.Waker
 
+	// persistShift spaces out the zero-window probes exponentially: with
+	// nothing in flight and the peer's window closed, resendTimer acts as the
+	// persist timer (RFC 1122, 4.2.2.17) and fires after rto<<persistShift.
+	persistShift uint
+
 	// rtt.srtt, rtt.rttvar, and rto are the "smoothed round-trip time",
 	// "round-trip time variation" and "retransmit timeout", as defined in
 	// section 2 of RFC 6298.
@@ -396,6 +401,21 @@ func (s *sender) retransmitTimerExpired() bool {
 		return true
 	}
 
+	if s.sndUna == s.sndNxt {
+		// Nothing is in flight, so this is the persist timer: if the
+		// peer's window is still closed while data is waiting, probe it
+		// with an ACK just below the window (like a keepalive), which the
+		// peer answers with its current window.
+		if s.zeroWindowPending() {
+			s.sendSegment(buffer.VectorisedView{}, flagAck, s.sndUna-1)
+			if s.persistShift < 16 {
+				s.persistShift++
+			}
+			s.resendTimer.enable(s.persistInterval())
+		}
+		return true
+	}
+
 	// Give up if we've waited more than a minute since the last resend.
 	// 如果rto已经超过了1分钟，直接放弃发送，返回错误
 	if s.rto >= 60*time.Second {
@@ -439,6 +459,21 @@ func (s *sender) retransmitTimerExpired() bool {
 	s.sendData()
 
 	return true
+}
+
+// zeroWindowPending reports whether data is waiting to be sent for the first
+// time while the peer advertises a zero window and nothing is in flight.
+func (s *sender) zeroWindowPending() bool {
+	return s.sndWnd == 0 && s.sndUna == s.sndNxt && s.writeNext != nil && s.writeNext.data.Size() != 0
+}
+
+// persistInterval is the delay until the next zero-window probe.
+func (s *sender) persistInterval() time.Duration {
+	d := s.rto << s.persistShift
+	if d <= 0 || d > 60*time.Second {
+		d = 60 * time.Second
+	}
+	return d
 }
 
 // sendData sends new data segments. It is called when data becomes available or
@@ -540,6 +575,12 @@ func (s *sender) sendData() {
 	if !s.resendTimer.enabled() && s.sndUna != s.sndNxt {
 		// 启动定时器，并且设定定时器的间隔为s.rto
 		s.resendTimer.enable(s.rto)
+	}
+	// With nothing in flight and data blocked by a zero window no timer
+	// would be running: a lost window update from the peer would then stall
+	// the connection forever. Arm the persist timer instead.
+	if !s.resendTimer.enabled() && s.zeroWindowPending() {
+		s.resendTimer.enable(s.persistInterval())
 	}
 	// If we have no more pending data, start the keepalive timer.
 	if s.sndUna == s.sndNxt {
@@ -682,6 +723,12 @@ func (s *sender) handleRcvdSegment(seg *segment) {
 
 	// Stash away the current window size.
 	// 存放当前窗口大小。
+	if s.sndWnd == 0 && seg.window != 0 && s.sndUna == s.sndNxt {
+		// The window reopened while the persist timer was pending: the
+		// data sent below must be timed by the retransmission timeout.
+		s.persistShift = 0
+		s.resendTimer.disable()
+	}
 	s.sndWnd = seg.window
 
 	// Ignore ack if it doesn't acknowledge any new data.
